@@ -602,6 +602,179 @@ def spec_pen(line):
     return unp, unp + pen * sum((ti - xi) ** 2 for ti, xi in zip(tt, x))
 
 
+# ------------------------------------------------------------------------------------------------ NM (SimplexDownhill) / XCOR (CrossEntropyMethod)
+BIG = 1e100          # the literal SimplexDownhill::init assigns to m_best.value
+XTOL = 1e-12
+
+def gen_nm(rng, k):
+    """SimplexDownhill replayed step by step from dyadic start points (arithmetic of a step: +, -, * by 2, 3, 0.5 and / dim).
+    objectives: smooth (0,1,2,4,6), plateaus / ties (8 floor(sphere), 11 max-norm, 12 l1 distance), constant (9: every value tied)"""
+    out = []
+    for i in range(k):
+        n = rng.choice([1, 1, 2, 2, 2, 3, 4, 5, 8, 15])
+        fid = rng.choice([0, 1, 2, 4, 6, 8, 8, 11, 12, 9] if n > 1 else [0, 8, 12, 9, 11, 6])
+        steps = rng.randint(8, 50) if fid != 9 else rng.randint(2, 6)
+        start = [rng.randint(-32, 32) / 8.0 for _ in range(n)]
+        out.append("NM %d %d 1 %d %d %s" % (n, fid, steps, rng.choice([0, 0, 1]), " ".join(float(x).hex() for x in start)))
+    return out
+
+def nm_scaled(cmd, factor):
+    t = cmd.split(); t[3] = repr(float(t[3]) * factor); return " ".join(t)
+
+def psol(tok):
+    v, p = tok.split(";")
+    return (fh(v), [] if p == "-" else fhl(p))
+
+def psols(part):
+    return [psol(x) for x in part.split()] if part.strip() else []
+
+def parse_nm(l):
+    parts = [x.strip() for x in l.split("|")]
+    if parts[0] == "NI":
+        return {"kind": "NI", "p0": [] if parts[1] == "-" else fhl(parts[1]), "start": fhl(parts[2]), "post": psols(parts[3]), "best": psol(parts[4]),
+                "evals": psols(parts[5]), "fchk": parts[6], "vc": parts[7] == "1"}
+    return {"kind": "NS", "pre": psols(parts[1]), "prebest": psol(parts[2]), "evals": psols(parts[3]), "post": psols(parts[4]), "best": psol(parts[5]),
+            "fchk": parts[6], "vc": parts[7] == "1"}
+
+def hxl(xs):
+    return " ".join(float(x).hex() if finite(x) else ("nan" if x != x else ("inf" if x > 0 else "-inf")) for x in xs)
+
+def sol_tok(s):
+    return hxl([s[0]] + s[1])
+
+def model_line_nm(r, n):
+    ev = "%d %s" % (len(r["evals"]), " ".join(sol_tok(e) for e in r["evals"]))
+    if r["kind"] == "NI":
+        return "NI %d %s %d %s %s %s" % (n, float(BIG).hex(), len(r["p0"]), hxl(r["p0"]), hxl(r["start"]), ev)
+    return "NS %d %s %s %d %s %s" % (n, " ".join(sol_tok(v) for v in r["pre"]), hxl([r["prebest"][0]]), len(r["prebest"][1]), hxl(r["prebest"][1]), ev)
+
+def parse_nm_model(mo, n):
+    t = mo.split(); p = 1; simplex = []
+    for _ in range(n + 1):
+        simplex.append((fh(t[p]), [fh(x) for x in t[p + 1:p + 1 + n]])); p += n + 1
+    assert t[p] == "B"; bv = fh(t[p + 1]); bl = int(t[p + 2]); bp = [fh(x) for x in t[p + 3:p + 3 + bl]]; p += 3 + bl
+    assert t[p] == "L"; nl = int(t[p + 1]); miss = t[p + 2] == "1"; p += 3
+    looked = [[fh(x) for x in t[p + i * n:p + (i + 1) * n]] for i in range(nl)]
+    return simplex, (bv, bp), looked, miss
+
+def nm_branch(r, n):
+    """the branch a step took, recomputed from the implementation's record alone"""
+    k = len(r["evals"])
+    if k == 1: return "reflection"
+    if k == 2 + n: return "shrink"
+    best = min(v for v, _ in r["pre"])
+    if r["evals"][0][0] < best:
+        return "expansion:expanded-kept" if r["evals"][1][0] < r["evals"][0][0] else "expansion:reflected-kept"
+    return "contraction"
+
+def monitor_nm(cmd, step, r, n, seen_small):
+    """property predicates on one init / step of SimplexDownhill, independent of the model.
+    seen_small: whether some objective value < 1e100 has been evaluated since init (else m_best still holds the literal)"""
+    w = "`%s` %s: " % (cmd, "init" if r["kind"] == "NI" else "step %d" % step); bad = []
+    bv, bp = r["best"]
+    if not r["vc"]: bad.append(("nm:vertex-value", w + "a simplex vertex carries a value that is not the objective at the vertex"))
+    if r["fchk"] == "nopoint" or fh(r["fchk"]) != bv:
+        key = "nm:value:all-values>=1e100" if not seen_small else "nm:value"
+        bad.append((key, w + "reported value %r != objective at the reported point %s (%s)%s" % (bv, bp, r["fchk"],
+                    "; every objective value so far is >= 1e100, the literal SimplexDownhill::init stores in m_best.value, so m_best was never assigned (its point is the one the object held before init)" if not seen_small else "")))
+    if len(r["post"]) != n + 1 or any(len(p) != n for _, p in r["post"]):
+        bad.append(("nm:shape", w + "simplex does not consist of n+1 points of dimension n"))
+    if r["kind"] == "NS" and not bad:
+        if min(v for v, _ in r["post"]) > min(v for v, _ in r["pre"]):
+            bad.append(("nm:simplex-best-worse", w + "best value of the simplex increased %r -> %r" % (min(v for v, _ in r["pre"]), min(v for v, _ in r["post"]))))
+        if bv > r["prebest"][0]:
+            bad.append(("nm:reported-worse", w + "reported value increased %r -> %r" % (r["prebest"][0], bv)))
+    if seen_small and not bad:
+        if bv != min(v for v, _ in r["post"]) or r["best"] not in r["post"]:
+            bad.append(("nm:reported-not-simplex-best", w + "reported solution %r is not a best vertex of the simplex" % (r["best"],)))
+    return bad
+
+def gen_xcor(rng, k):
+    """CrossEntropyMethod: elite of size 1, identical samples (variance 0), noise 0 / constant / clipped negative / linear schedules
+    that reach 0, populations <= 16 (ElitistSelection's std::sort is then the stable insertion sort: ties are compared too) and larger"""
+    out = []
+    for i in range(k):
+        n = rng.choice([1, 2, 2, 3, 4, 6])
+        lam = rng.choice([2, 3, 5, 8, 10, 16, 16, 20, 50])
+        mu = rng.choice([1, 1, 2, max(1, lam // 4), lam - 1, lam - 1 if rng.random() < 0.7 else lam])
+        mu = max(1, min(mu, lam))
+        var0 = rng.choice([0.0, 0.0625, 1.0, 1.0, 25.0, 100.0])
+        kind, a, b = rng.choice([(0, 0.0, 0.0), (1, 0.0, 0.0), (1, 0.5, 0.0), (1, -1.0, 0.0), (2, 2.0, -0.5), (2, 0.0, 0.25), (2, 5.0, -0.1), (0, 0.0, 0.0)])
+        fid = rng.choice([0, 1, 2, 4, 6, 3, 5, 8, 9, 11])
+        out.append("XCOR %d %d %d %s %d %s %s %d %d %d" % (n, lam, mu, repr(var0), kind, repr(a), repr(b), rng.randint(1, 10 ** 6), fid, rng.randint(3, 14)))
+    return out
+
+def parse_xu(l):
+    parts = [x.strip() for x in l.split("|")]
+    hd = hdr(parts[0]); n, lam, mu = map(int, parts[1].split()); kd = parts[2].split()
+    r = {"same": hd["same"] == "1", "rinv": hd["rinv"] == "1", "n": n, "lam": lam, "mu": mu, "kind": int(kd[0]), "a": fh(kd[1]), "b": fh(kd[2]),
+         "counter": int(parts[3]), "mean": fhl(parts[4]), "var": fhl(parts[5]), "z": [fhl(z) for z in parts[6].split()],
+         "off": [psol(o) for o in parts[7].split()], "post": None}
+    if parts[8] != "EXC":
+        r["post"] = {"mean": fhl(parts[8]), "var": fhl(parts[9]), "best": fh(parts[10]), "bestpt": fhl(parts[11]), "fchk": fh(parts[12])}
+    return r
+
+def model_line_xu(r):
+    return "X %d %d %d %d %s %d %s %s %s %s" % (r["n"], r["lam"], r["mu"], r["kind"], hxl([r["a"], r["b"]]), r["counter"], hxl(r["mean"]), hxl(r["var"]),
+                                              " ".join(hxl(z) for z in r["z"]), " ".join(sol_tok(o) for o in r["off"]))
+
+def parse_xu_model(mo, n, lam):
+    t = mo.split(); assert t[1] == "S"
+    def res(p):
+        if t[p] == "EXC": return None, p + 1
+        m = [fh(x) for x in t[p:p + n]]; v = [fh(x) for x in t[p + n:p + 2 * n]]; bv = fh(t[p + 2 * n]); bp = [fh(x) for x in t[p + 2 * n + 1:p + 3 * n + 1]]
+        return {"mean": m, "var": v, "best": bv, "bestpt": bp, "miss": t[p + 3 * n + 1] == "1"}, p + 3 * n + 2
+    rs, p = res(2); assert t[p] == "U"; ru, p = res(p + 1); assert t[p] == "Z"
+    zs = [[fh(x) for x in t[p + 1 + i * n:p + 1 + (i + 1) * n]] for i in range(lam)]
+    return rs, ru, zs
+
+def xclose(a, b, tol=XTOL):
+    if len(a) != len(b): return False
+    sc = max([abs(x) for x in a + b if finite(x)] + [0.0])
+    return all(x == y or (finite(x) and finite(y) and abs(x - y) <= tol * max(sc, 1e-300)) for x, y in zip(a, b))
+
+def cem_noise_py(r):
+    t = r["counter"] + 1
+    if r["kind"] == 0: return 0.0
+    if r["kind"] == 1: return max(r["a"], 0.0)
+    return max(r["a"] + t * r["b"], 0.0)
+
+def monitor_xu(cmd, step, r):
+    """spec predicates on one CrossEntropyMethod step, independent of the model"""
+    n, lam, mu = r["n"], r["lam"], r["mu"]; w = "`%s` step %d: " % (cmd, step); bad = []
+    fits = [o[0] for o in r["off"]]
+    srt = sorted(r["off"], key=lambda o: o[0])
+    # ties matter only if they can change the elite or its order: a tie inside the first mu+1 ranks between different points
+    r["ties"] = any(srt[i][0] == srt[i + 1][0] and srt[i][1] != srt[i + 1][1] for i in range(min(mu, lam - 1)))
+    if not r["same"]: bad.append(("xcor:step-differs", w + "CrossEntropyMethod::step differs from sampling + PenalizingEvaluator + ElitistSelection + counter++ + updateStrategyParameters + m_best = parents[0] with the same random numbers"))
+    if r["post"] is None:
+        if lam > mu: bad.append(("xcor:exception", w + "step throws although population size %d > selection size %d" % (lam, mu)))
+        return bad
+    if lam <= mu: bad.append(("xcor:no-exception", w + "ElitistSelection accepted population size %d <= selection size %d" % (lam, mu)))
+    if not r["rinv"]: bad.append(("xcor:elite-not-rank-invariant", w + "ElitistSelection selects different individuals on 4*fitness"))
+    post = r["post"]; noise = cem_noise_py(r)
+    if post["best"] != post["fchk"]:
+        bad.append(("xcor:value", w + "reported value %r != objective at the (closest feasible) reported point %r" % (post["best"], post["fchk"])))
+    if not all(finite(v) and v >= noise for v in post["var"]):
+        bad.append(("xcor:variance-below-noise", w + "updated variance %r has a component below the noise term %r" % (post["var"], noise)))
+    if bad or r["ties"]: return bad
+    elite = srt[:mu]
+    if (post["best"], post["bestpt"]) != (elite[0][0], elite[0][1]):
+        bad.append(("xcor:best", w + "reported solution is not the best-ranked sample"))
+    m = [sum(e[1][j] for e in elite) / mu for j in range(n)]
+    if not xclose(m, post["mean"], 1e-11): bad.append(("xcor:mean", w + "new mean %r is not the average %r of the %d best samples" % (post["mean"], m, mu)))
+    v = [sum((e[1][j] - m[j]) ** 2 for e in elite) / mu + noise for j in range(n)]
+    if not xclose(v, post["var"], 1e-9): bad.append(("xcor:variance", w + "new variance %r is not the mean squared deviation of the elite + noise %r" % (post["var"], v)))
+    for j in range(n):
+        spread = max(e[1][j] for e in elite) - min(e[1][j] for e in elite)
+        sc = max(abs(e[1][j]) for e in elite)
+        if post["var"][j] == 0.0 and (noise != 0.0 or spread > 1e-150):
+            bad.append(("xcor:variance-zero-uncharacterised", w + "variance[%d] = 0 although noise = %r and the elite spreads over %r in that coordinate" % (j, noise, spread))); break
+        if spread == 0.0 and noise == 0.0 and post["var"][j] > 1e-28 * max(sc * sc, 1e-300):
+            bad.append(("xcor:variance-positive-on-identical-elite", w + "variance[%d] = %r although the elite agrees in that coordinate and the noise is 0" % (j, post["var"][j]))); break
+    return bad
+
+
 # ------------------------------------------------------------------------------------------------ main
 def main():
     ck = Check(PID)
@@ -634,6 +807,7 @@ def main():
         cors = [c for c in cmds if c.startswith("COR")]; ecors = [c for c in cmds if c.startswith("ECOR")]; pens = [c for c in cmds if c.startswith("P ")]
         scors = [c for c in cmds if c.startswith("SCOR")]; ccors = [c for c in cmds if c.startswith("CCOR")]; vcors = [c for c in cmds if c.startswith("VCOR")]
         chols = [c for c in cmds if c.startswith("CH ")]
+        nms = [c for c in cmds if c.startswith("NM ")]; xcors = [c for c in cmds if c.startswith("XCOR ")]
         allsph = set(sphere_runs(range(1, 7), range(2, 11)))
         sph = [c for c, _ in runs if c in allsph]      # a replayed sphere-budget run is judged against the budget table again
         runs = [(c, r) for c, r in runs if c not in allsph]
@@ -656,6 +830,8 @@ def main():
         vcors = gen_vcor(rng, 60 if not big else 800)
         chols = gen_chol(rng, 400 if not big else 6000)
         sph = sphere_runs([1, 2] if not big else [1, 2, 3, 4, 5, 6], [2, 5, 10] if not big else [2, 3, 4, 5, 7, 10])
+        nms = gen_nm(rng, 120 if not big else 2000)          # generated AFTER the older streams: those keep their inputs
+        xcors = gen_xcor(rng, 150 if not big else 2500)
         cdir = os.path.join(ROOT, "corpus", PID)
         if os.path.isdir(cdir):
             for f in sorted(os.listdir(cdir)):
@@ -668,6 +844,8 @@ def main():
                     elif c.startswith("CCOR"): ccors.append(c)
                     elif c.startswith("VCOR"): vcors.append(c)
                     elif c.startswith("CH "): chols.append(c)
+                    elif c.startswith("NM "): nms.append(c)
+                    elif c.startswith("XCOR "): xcors.append(c)
 
     def report(key, msg, cmdlines, extra=None):
         cf = ck.write_replay("case_%d.txt" % len(ck.violations), "\n".join(cmdlines) + "\n")
@@ -967,13 +1145,167 @@ def main():
         ck.violation("correspondence-penalized", {"note": "model and implementation differ on %d P lines" % ndis}, "correspondence penalized_eval no longer checks", no_input=True)
     ck.oblige("PenalizingEvaluator = exact spec = C11Model.penalized_eval on %d dyadic inputs" % len(pens), npen == 0 and ndis == 0)
 
+    # ---------------- SimplexDownhill replayed step by step: C11DirectModel.sd_init / sd_step on the implementation's own previous simplex
+    NM_PROBES = ["NM 1 10 1 2 1 0x1p-1", "NM 2 10 1 3 0 0x1p+0 -0x1p-1"]      # every objective value >= 1e100 (the literal of SimplexDownhill::init)
+    if nms or ck.replay is None:
+        probes = [] if ck.replay else NM_PROBES
+        allc = []
+        for c in nms: allc += [(c, "base"), (nm_scaled(c, 4.0), "scaled")]
+        allc += [(c, "probe") for c in probes]
+        rc, out, err = run_harness(exe, [c for c, _ in allc], os.path.join(tmpd, "nm.txt"))
+        nblocks = split_blocks(out); nblocks += [["<truncated>"]] * (len(allc) - len(nblocks))
+        recs = []; nmon = 0; parsed = []
+        for (cmd, role), blk in zip(allc, nblocks):
+            n = int(cmd.split()[1]); rl = []; seen_small = False; st = 0
+            for l in blk:
+                if l.startswith("NI") or l.startswith("NS"):
+                    r = parse_nm(l)
+                    seen_small = seen_small or any(v < BIG for v, _ in r["evals"])
+                    r["seen_small"] = seen_small
+                    rl.append(r); recs.append((cmd, role, st if r["kind"] == "NS" else -1, r, n))
+                    if r["kind"] == "NS": st += 1
+                elif l.startswith("EXC") or l == "<truncated>":
+                    nmon += 1; report("nm:exception", "`%s`: %s" % (cmd, l), [cmd])
+            parsed.append(rl)
+        mlines = [model_line_nm(r, n) for _, _, _, r, n in recs]
+        rcm, mout, merr = run_lines(model, mlines, os.path.join(tmpd, "nm_model.txt")) if mlines else (0, [], "")
+        if rcm != 0 or len(mout) != len(mlines): raise RuntimeError("model driver failed on NI/NS lines: rc=%s %s" % (rcm, merr[-500:]))
+        ndis = 0; first = None; branches = {}; tied_steps = 0; candidates = []; badcmds = set()
+        for (cmd, role, st, r, n), mo in zip(recs, mout):
+            evals += 1
+            if r["kind"] == "NS":
+                b = nm_branch(r, n); branches[b] = branches.get(b, 0) + 1
+                if len(set(v for v, _ in r["pre"])) < len(r["pre"]): tied_steps += 1
+            bad = monitor_nm(cmd, st, r, n, r["seen_small"])
+            if bad:
+                key, msg = bad[0]; badcmds.add(cmd)
+                if key == "nm:value:all-values>=1e100" and role == "probe" and ck.match_known(key) is None:
+                    if not candidates: candidates.append({"case": cmd, "observed": msg})
+                    continue
+                if ck.match_known(key) is None: nmon += 1
+                else: nknown[0] += 1
+                if key not in seen_keys and tie_reports[0] < 10:
+                    seen_keys.add(key); tie_reports[0] += 1; report(key, msg, [cmd], {"step": st, "record": r})
+                continue
+            simplex, best, looked, miss = parse_nm_model(mo, n)
+            diff = []
+            if simplex != r["post"]: diff.append("simplex")
+            if best != r["best"]: diff.append("reported solution")
+            if miss or sorted(looked) != sorted(p for _, p in r["evals"]): diff.append("evaluated points")
+            if diff:
+                ndis += 1
+                if first is None: first = (cmd, st, diff, r, {"simplex": simplex, "best": best, "evaluated": looked})
+        # rank invariance on the implementation: the run on 4*f visits exactly the same simplices
+        nri = 0
+        for i in range(0, 2 * len(nms), 2):
+            (cb, _), (cs, _) = allc[i], allc[i + 1]
+            if cb in badcmds or cs in badcmds: continue
+            a, b = parsed[i], parsed[i + 1]
+            k = next((j for j, (x, y) in enumerate(zip(a, b)) if [p for _, p in x["post"]] != [p for _, p in y["post"]] or x["best"][1] != y["best"][1]
+                      or [4.0 * v for v, _ in x["post"]] != [v for v, _ in y["post"]]), None)
+            if k is None and len(a) != len(b): k = min(len(a), len(b))
+            if k is not None:
+                nri += 1; key = "nm:rank-invariance"
+                if ck.match_known(key) is None: nmon += 1
+                else: nknown[0] += 1
+                if key not in seen_keys:
+                    seen_keys.add(key); report(key, "`%s` vs `%s`: the simplices of the run on 4*f differ from those of the run on f from record %d on (0 = init)" % (cb, cs, k), [cb])
+        if ndis and not nmon and not ck.violations:
+            cmd, st, diff, r, mod = first
+            cf = ck.write_replay("nm_case.txt", cmd + "\n")
+            ck.violation("correspondence-simplex", {"case_file": cf, "case": [cmd], "step": st, "differs_in": diff, "model_output": mod,
+                                                    "implementation_output": {"simplex": r["post"], "best": r["best"], "evaluated": r["evals"]}, "record": r,
+                                                    "replay_cmd": "python3 tools/c11.py --replay %s" % cf, "broken": "correspondence C11DirectModel.sd_init/sd_step vs SimplexDownhill::init/step"},
+                         "correspondence C11DirectModel.sd_%s vs SimplexDownhill::%s no longer checks (%s differ on %d records; first: `%s` %s); the spec monitors pass on every explored input"
+                         % ("init" if st < 0 else "step", "init" if st < 0 else "step", ",".join(diff), ndis, cmd, "init" if st < 0 else "step %d" % st), no_input=True)
+        want = ["reflection", "expansion:expanded-kept", "expansion:reflected-kept", "contraction", "shrink"]
+        covered = ck.replay is not None or all(branches.get(b, 0) > 0 for b in want)
+        ck.oblige("correspondence C11DirectModel.sd_init / sd_step (float, objective = table of the implementation's own evaluations) = SimplexDownhill::init / step EXACTLY "
+                  "(simplex, reported solution, set of evaluated points) on %d records of %d runs (f and 4*f, dimensions 1..15, ties included); monitors: value = objective at the reported point, "
+                  "vertex values = objective, simplex best and reported value never increase, reported solution is a best vertex, run on 4*f visits the same simplices; every branch reached" % (len(recs), len(allc)),
+                  ndis == 0 and nmon == 0 and covered, "" if (ndis == 0 and nmon == 0 and covered) else "%d monitor failures, %d disagreements, branches %s" % (nmon, ndis, branches))
+        ck.notes["nm_records"] = len(recs); ck.notes["nm_branch_counts"] = branches; ck.notes["nm_steps_with_tied_vertex_values"] = tied_steps
+        if candidates:
+            log("FINDING-CANDIDATE property=C11 (not registered in known_findings.json; the theorem C11_simplex_reports_objective carries the matching hypothesis): " + candidates[0]["observed"])
+            ck.notes["simplex_1e100_literal_witness"] = candidates[0]
+
+    # ---------------- CrossEntropyMethod step by step: C11DirectModel.cem_sample / cem_select_update / cem_step on the recorded draws and samples
+    if xcors:
+        rc, out, err = run_harness(exe, xcors, os.path.join(tmpd, "xcor.txt"))
+        xblocks = split_blocks(out); xblocks += [["<truncated>"]] * (len(xcors) - len(xblocks))
+        recs = []; nmon = 0
+        for cmd, blk in zip(xcors, xblocks):
+            st = 0
+            for l in blk:
+                if l.startswith("XU "):
+                    recs.append((cmd, st, parse_xu(l))); st += 1
+                elif l.startswith("EXC") or l == "<truncated>":
+                    nmon += 1; report("xcor:exception", "`%s`: %s" % (cmd, l), [cmd])
+        mlines = [model_line_xu(r) for _, _, r in recs]
+        rcm, mout, merr = run_lines(model, mlines, os.path.join(tmpd, "xcor_model.txt")) if mlines else (0, [], "")
+        if rcm != 0 or len(mout) != len(mlines): raise RuntimeError("model driver failed on X lines: rc=%s %s" % (rcm, merr[-500:]))
+        ndis = 0; first = None; stats = {"elite_size_1": 0, "identical_samples": 0, "noise_zero": 0, "noise_positive": 0, "variance_zero_component": 0,
+                                         "selection_throws": 0, "tied_fitness_skipped": 0, "tied_fitness_compared": 0, "sampling_bit_exact": 0}
+        for (cmd, st, r), mo in zip(recs, mout):
+            evals += 1
+            bad = monitor_xu(cmd, st, r)
+            if bad:
+                key, msg = bad[0]
+                if ck.match_known(key) is None: nmon += 1
+                else: nknown[0] += 1
+                if key not in seen_keys and tie_reports[0] < 14:
+                    seen_keys.add(key); tie_reports[0] += 1; report(key, msg, [cmd], {"step": st})
+                continue
+            n, lam, mu = r["n"], r["lam"], r["mu"]
+            rs, ru, zs = parse_xu_model(mo, n, lam)
+            diff = []
+            if not all(xclose(z, o[1]) for z, o in zip(zs, r["off"])): diff.append("samples")
+            exact = all(z == o[1] for z, o in zip(zs, r["off"]))
+            stats["sampling_bit_exact"] += 1 if exact else 0
+            if mu == 1: stats["elite_size_1"] += 1
+            if all(o[1] == r["off"][0][1] for o in r["off"]): stats["identical_samples"] += 1
+            stats["noise_zero" if cem_noise_py(r) == 0.0 else "noise_positive"] += 1
+            if r["post"] is None:
+                stats["selection_throws"] += 1
+                if ru is not None or rs is not None: diff.append("model: no exception, implementation: exception")
+            elif ru is None or rs is None:
+                diff.append("model: exception, implementation: none")
+            else:
+                if any(v == 0.0 for v in r["post"]["var"]): stats["variance_zero_component"] += 1
+                anytie = len(set(o[0] for o in r["off"])) < lam
+                if r["ties"] and lam > 16: stats["tied_fitness_skipped"] += 1      # std::sort on > 16 elements is not stable
+                else:
+                    if anytie: stats["tied_fitness_compared"] += 1
+                    for tag, res in (("update", ru), ("step", rs)):
+                        if tag == "step" and (not exact or len(set(tuple(o[1]) for o in r["off"])) < lam and anytie and False): continue
+                        if tag == "step" and res["miss"]: diff.append("step: sample not among the implementation's"); continue
+                        if not xclose(res["mean"], r["post"]["mean"]): diff.append(tag + ":mean")
+                        if not xclose(res["var"], r["post"]["var"]): diff.append(tag + ":variance")
+                        if res["best"] != r["post"]["best"] or res["bestpt"] != r["post"]["bestpt"]: diff.append(tag + ":reported solution")
+            if diff:
+                ndis += 1
+                if first is None: first = (cmd, st, diff, r, {"step": rs, "update": ru})
+        if ndis and not nmon and not ck.violations:
+            cmd, st, diff, r, mod = first
+            cf = ck.write_replay("xcor_case.txt", cmd + "\n")
+            ck.violation("correspondence-cem", {"case_file": cf, "case": [cmd], "step": st, "differs_in": diff, "model_output": mod, "implementation_output": r["post"], "record": r,
+                                                "replay_cmd": "python3 tools/c11.py --replay %s" % cf, "broken": "correspondence C11DirectModel.cem_* vs CrossEntropyMethod::step"},
+                         "correspondence C11DirectModel.cem_sample / cem_select_update / cem_step vs CrossEntropyMethod::step no longer checks (%s differ on %d steps; first: `%s` step %d); the spec monitors pass on every explored input"
+                         % (",".join(diff), ndis, cmd, st), no_input=True)
+        ck.oblige("correspondence C11DirectModel.cem_sample (draws read back) / cem_select_update (recorded samples) / cem_step (draws + table oracle) = CrossEntropyMethod::step at 1e-12 "
+                  "(reported solution exactly, exception iff population <= selection size) on %d steps of %d runs; step() = sample+evaluate+select+counter+++update+best by hand exactly; "
+                  "monitors: value = objective at closest feasible reported point, mean' = average of the elite, variance' = mean squared deviation + noise >= noise, "
+                  "variance'_j = 0 only if noise = 0 and the elite agrees in coordinate j, elite unchanged on 4*fitness" % (len(recs), len(xcors)),
+                  ndis == 0 and nmon == 0, "" if not (ndis or nmon) else "%d monitor failures, %d disagreements" % (nmon, ndis))
+        ck.notes["xcor_steps"] = len(recs); ck.notes["xcor_case_counts"] = stats
+
     ck.cov["evaluations"] = evals
-    ck.cov["distinct_nontrivial"] = len(nontrivial) + len(set(cors)) + len(set(ecors)) + len(set(pens)) + len(set(scors)) + len(set(ccors)) + len(set(vcors)) + len(set(chols))
+    ck.cov["distinct_nontrivial"] = len(nontrivial) + len(set(cors)) + len(set(ecors)) + len(set(pens)) + len(set(scors)) + len(set(ccors)) + len(set(vcors)) + len(set(chols)) + len(set(nms)) + len(set(xcors))
     ck.cov["rule"] = ("optimizer steps (RUN: 7 optimizer configurations x dimension 2..10 x population sizes / recombination types / initial sigmas / seeds / 7 objectives, each run four times (fresh, fresh again with the same seed, on 4*f, and on an object re-initialised after an earlier run): "
                       "twice with the same seed and once on 4*f), CMA updates replayed through the model (COR), ElitistCMA steps (ECOR), PenalizingEvaluator calls (P), "
-                      "CMSA updates (SCOR), CMAChromosome updates inside ElitistCMA steps (CCOR) and VDCMA updates (VCOR) replayed through the model, direct Cholesky rank-one updates on exact inputs (CH); non-trivial = more than 2 steps; distinct = distinct command lines")
+                      "CMSA updates (SCOR), CMAChromosome updates inside ElitistCMA steps (CCOR) and VDCMA updates (VCOR) replayed through the model, direct Cholesky rank-one updates on exact inputs (CH), SimplexDownhill init/steps (NM: dimension 1..15 x 9 objectives incl. plateaus and constants x dyadic start points, each on f and 4*f) and CrossEntropyMethod steps (XCOR: population 2..50 x elite 1..population x initial variance 0..100 x 8 noise schedules x 10 objectives) replayed through the model; non-trivial = more than 2 steps; distinct = distinct command lines")
     ck.cov["samples"] = [runs[0][0] if runs else "", cors[0] if cors else "", ecors[0] if ecors else "", pens[0] if pens else "",
-                         scors[0] if scors else "", ccors[0] if ccors else "", vcors[0] if vcors else "", chols[0] if chols else ""]
+                         scors[0] if scors else "", ccors[0] if ccors else "", vcors[0] if vcors else "", chols[0] if chols else "", nms[0] if nms else "", xcors[0] if xcors else ""]
     ck.notes["failures_matching_known_findings"] = nknown[0]
     ck.notes["runs"] = len(runs); ck.notes["monitor_keys_reported"] = sorted(seen_keys)
     ck.finish()
